@@ -85,9 +85,15 @@ def _case(draw: Any, args: dict) -> dict:
         if privs and draw(st.booleans()):
             bases.insert(draw(st.integers(0, len(bases))), key_of(draw(st.sampled_from(privs))))
         classes.append({"name": f"Pub{len(classes) + 20}", "private": False, "bases": bases, "methods": draw(st.lists(st.sampled_from(METHODS), min_size=1, max_size=2, unique=True)), "mod": 0, "generic": False})
+    # properties: the same name may be defined at several levels (overridden in a subclass, reached twice in a diamond)
+    for c in classes:
+        c["props"] = draw(st.lists(st.sampled_from(PROPS), max_size=2, unique=True)) if draw(st.booleans()) else []
     for c in classes:  # (the explicit diamond above is written with plain names: normalise to keys)
         c["bases"] = [b if ":" in b else f"0:{b}" for b in c["bases"]]
     return {"pkgname": pkgname, "classes": classes, "options": {"nc": False}}
+
+
+PROPS = ["size", "label_text", "kind"]
 
 
 def key_of(c: dict) -> str:
@@ -142,7 +148,12 @@ def render(case: dict) -> dict[str, str]:
             lines.append(f"    def {m}(self, {marker(c)}: int) -> int:")
             lines.append("        return 0")
             lines.append("")
-        if not c["methods"]:
+        for pn in c.get("props", []):
+            lines.append("    @property")
+            lines.append(f"    def {pn}(self) -> int:")
+            lines.append("        return 0")
+            lines.append("")
+        if not c["methods"] and not c.get("props"):
             lines.append("    pass")
         mods[c["mod"]].append("\n".join(lines))
     files = {f"{pk}/__init__.py": ""}
@@ -254,6 +265,14 @@ def judge(case: dict) -> dict:
             want = marker(by_key[definer])
             if shown != [want]:
                 discs.append(Discrepancy.make("wrong_definition_shown", f"{c['name']}.{m}", f"stub shows the definition with parameters {shown}, Python's MRO {mro} selects {definer} ({want})", tags))
+        # properties (rendered as attributes): every property name of the class or of its private ancestors exactly once
+        exp_props = sorted({pn for k in relevant for pn in by_key[k].get("props", [])})
+        got_attrs = [d.python_name for d in decl.members if d.kind == "attr"]
+        for pn in exp_props:
+            if got_attrs.count(pn) != 1:
+                discs.append(Discrepancy.make("inherited_property_count", f"{c['name']}.{pn}", f"appears {got_attrs.count(pn)} times as attribute, expected exactly once (private ancestors {priv})", tags_cls))
+        for extra in sorted(set(got_attrs) - set(exp_props)):
+            discs.append(Discrepancy.make("unexpected_member", f"{c['name']}.{extra}", f"attribute that is no property of the class or of its private ancestors {priv}", tags_cls))
         for extra in sorted(set(got_names) - set(expected)):
             discs.append(Discrepancy.make("unexpected_member", f"{c['name']}.{extra}", f"not a public method of the class or of its private ancestors {priv}", tags_cls))
         # superclass list
